@@ -8,6 +8,7 @@ import (
 	"fmt"
 	"math"
 	"os"
+	"reflect"
 	"strconv"
 
 	"github.com/high-moctane/mocrelay"
@@ -82,7 +83,17 @@ func FromEvent(e *mocrelay.Event) JEvent {
 }
 
 func (j JFilter) ToFilter() *mocrelay.ReqFilter {
-	f := &mocrelay.ReqFilter{Since: j.Since, Until: j.Until, Limit: j.Limit}
+	// (integers of its own: nothing the implementation does to the filter reaches the recorded case)
+	f := &mocrelay.ReqFilter{}
+	if j.Since != nil {
+		f.Since = Ptr(*j.Since)
+	}
+	if j.Until != nil {
+		f.Until = Ptr(*j.Until)
+	}
+	if j.Limit != nil {
+		f.Limit = Ptr(*j.Limit)
+	}
 	if j.IDs != nil {
 		f.IDs = append([]string{}, (*j.IDs)...)
 	}
@@ -99,6 +110,20 @@ func (j JFilter) ToFilter() *mocrelay.ReqFilter {
 		}
 	}
 	return f
+}
+
+// FiltersIntact: fs, made from js by ToFilters and handed to the implementation since, still says what js says
+// (a matcher, a store or a validator is given filters to read, not to rewrite: the caller may use them again)
+func FiltersIntact(fs []*mocrelay.ReqFilter, js []JFilter) bool {
+	if len(fs) != len(js) {
+		return false
+	}
+	for i := range fs {
+		if fs[i] == nil || !reflect.DeepEqual(fs[i], js[i].ToFilter()) {
+			return false
+		}
+	}
+	return true
 }
 
 func ToFilters(js []JFilter) []*mocrelay.ReqFilter {
